@@ -210,6 +210,18 @@ Fixpoint parse_go (st : ts_env) (l : bytes) (args : list bytes) (arg : bytes)
 Definition ts_parse (st : ts_env) (line : bytes) : option (list bytes) :=
   parse_go st line [] [] None false.
 
+(* ------------------------------------------------------------------ cmp / cmpenv *)
+
+(* doCmdCmp with the texts of the two files already read (UpdateScripts off): text2 goes through
+   ts.expand exactly once when the command is cmpenv, text1 never; true = the command returns,
+   false = Fatalf (the files differ / do not differ / the two names are the same) *)
+Definition do_cmd_cmp (st : ts_env) (neg env : bool) (name1 name2 text1 text2 : bytes) : bool :=
+  if bytes_eqb name1 name2 then false
+  else
+    let text2' := if env then expand st text2 else text2 in
+    let eq := bytes_eqb text1 text2' in
+    if neg then negb eq else eq.
+
 (* ------------------------------------------------------------------ what a child sees *)
 
 Definition eq_byte : byte := x3d.
